@@ -23,4 +23,6 @@ func checkC02(c *Ctx) {
 	ruleAlienChunks(c, "C02.4")
 	ruleChunkLoop(c, "C02.4")
 	ruleVLQ(c, "", "C02.8", "")
+	c.Rule("C02.9", "every decoded event reaches the caller: the decoded delta goes to Track.Add/Close and Track.Add stores any event bytes it is given (incomplete sysex, F7 packets, any meta) unchanged (= C01.7)", 5)
+	c.include(checkC01, map[string]string{"C01.7": "C02.9"})
 }
